@@ -122,6 +122,11 @@ pub struct Sim {
     pub executed: Vec<&'static str>,
     pub verbose: bool,
     pub fault_armed_unfired: u64,
+    pub tolerated_leak: bool,
+    /// Mutation counters per slot and the latest copy relation `(source, version, copy, version)`:
+    /// lock-step is only meaningful between a world and an unmodified copy of it.
+    pub versions: Vec<u64>,
+    pub link: Option<(usize, u64, usize, u64)>,
 }
 
 fn seed_vals(seed: u64) -> [u64; 4] {
@@ -154,6 +159,9 @@ impl Sim {
             executed: Vec::new(),
             verbose,
             fault_armed_unfired: 0,
+            tolerated_leak: false,
+            versions: vec![0; nslots],
+            link: None,
         })
     }
 
@@ -201,9 +209,30 @@ impl Sim {
         self.log.u64(self.opix as u64);
         self.log.bytes(op.name().as_bytes());
         self.executed.push(op.name());
-        let r = self.step_inner(op);
+        let mut r = self.step_inner(op);
+        let after_panic = self.balance_off;
+        if let Err(v) = &r {
+            // A world that took an injected panic may answer later calls with an ordinary (safe)
+            // panic: the property only forbids double drops and touching freed memory. Panics
+            // raised by checks that exist in debug builds only (arithmetic overflow, std's
+            // unsafe-precondition checks) stand for undefined behaviour in release builds and
+            // are reported.
+            if after_panic && v.oracle == "unexpected-panic" && !is_debug_only_check(&v.text) {
+                self.probes.hit("safe_panic_after_fault");
+                for s in self.slots.iter_mut() {
+                    if s.tainted {
+                        s.model.ents.clear();
+                    }
+                }
+                r = Ok(());
+            }
+        }
         r.map_err(|mut v| {
             v.op = self.opix;
+            // Once a panic has been injected, memory-safety and exactly-once oracles speak for C17.
+            if after_panic && matches!(v.oracle.as_str(), "arena-audit" | "unexpected-panic" | "payload-integrity" | "dump-arena-crosscheck" | "drop-ledger") {
+                v.prop = "C17";
+            }
             v
         })
     }
@@ -217,12 +246,18 @@ impl Sim {
                 self.lockstep = None;
             }
         }
+        for s in op.touched_slots().into_iter().chain(op.mirror_slot()) {
+            let si = self.s(s);
+            self.versions[si] += 1;
+        }
         self.apply(op)?;
         if let (Some((a, b)), Some(ms)) = (self.lockstep, op.mirror_slot()) {
             if self.s(ms) == a && !self.slots[a].tainted && !self.slots[b].tainted {
                 let ids_a = self.last_ids.clone();
                 let op_b = op.with_slot(b as u8);
                 self.apply(&op_b)?;
+                self.versions[b] += 1;
+                self.link = Some((a, self.versions[a], b, self.versions[b]));
                 self.probes.hit("lockstep_mirrored_op");
                 if ids_a != self.last_ids {
                     return Err(viol(
@@ -246,6 +281,12 @@ impl Sim {
 
     #[allow(dead_code)]
     fn _unused(&self) {}
+}
+
+fn is_debug_only_check(text: &str) -> bool {
+    ["unsafe precondition", "with overflow", "misaligned pointer", "null pointer dereference", "unreachable_unchecked"]
+        .iter()
+        .any(|p| text.contains(p))
 }
 
 fn unexpected(c: Caught, what: &str, prop: &'static str) -> Violation {
@@ -786,7 +827,15 @@ impl Sim {
             Op::Lockstep { a, b, on } => {
                 let (a, b) = (self.s(*a), self.s(*b));
                 if *on && a != b && !self.slots[a].tainted && !self.slots[b].tainted {
-                    if same_content(&self.slots[a].model, &self.slots[b].model).is_ok()
+                    let linked = match self.link {
+                        Some((x, vx, y, vy)) => {
+                            (x == a && y == b && vx == self.versions[a] && vy == self.versions[b])
+                                || (x == b && y == a && vx == self.versions[b] && vy == self.versions[a])
+                        }
+                        None => false,
+                    };
+                    if linked
+                        && same_content(&self.slots[a].model, &self.slots[b].model).is_ok()
                         && self.slots[a].model.issued == self.slots[b].model.issued
                     {
                         self.lockstep = Some((a, b));
@@ -878,7 +927,9 @@ impl Sim {
     /// source's content with fresh serials learnt from the copy itself.
     fn adopt_copy(&mut self, a: usize, b: usize, prop: &'static str, what: &str) -> Result<(), Violation> {
         self.slots[b].model = self.slots[a].model.clone();
-        self.relearn_after_copy(b, prop, what)
+        self.relearn_after_copy(b, prop, what)?;
+        self.link = Some((a, self.versions[a], b, self.versions[b]));
+        Ok(())
     }
 
     /// The world in `si` is a copy of what `slots[si].model` describes, but with values that were
@@ -1036,7 +1087,7 @@ impl Sim {
                     rec.0[it.comp as usize] = Some((it.serial, it.val));
                 }
             }
-            if map.insert(id, rec).is_some() {
+            if map.insert(id, rec).is_some() && !self.slots[si].tainted {
                 return Err(viol("C01", "model-extraction", format!("slot {si}: identifier {id:?} yielded twice by a query")));
             }
             order.push(id);
@@ -1412,6 +1463,7 @@ impl Sim {
         }
         let (created0, _) = ledger::totals();
         let live0 = ledger::live_count();
+        let sut_blocks0 = arena::stats().live_sut;
         let anon0: Vec<i64> = (0..ledger::NTYPES as u8).map(ledger::anon_live).collect();
         let r = sut(|| medium::deserialize(&stream));
         match r {
@@ -1426,6 +1478,7 @@ impl Sim {
                 if self.verbose {
                     eprintln!("rejected: {_e}");
                 }
+                drop(_e);
                 self.probes.hit("corrupt_rejected");
                 let (created1, _) = ledger::totals();
                 if created1 > created0 {
@@ -1449,6 +1502,14 @@ impl Sim {
                             ledger::live_count() as i64 - live0 as i64
                         ),
                     ));
+                }
+                let sut_blocks1 = arena::stats().live_sut;
+                if sut_blocks1 > sut_blocks0 {
+                    // Plain memory (no values) that a failed attempt did not give back. No given
+                    // property forbids it (C05 speaks of memory obtained for a world that is then
+                    // dropped), so it is recorded, not reported, and the end-of-run balance is off.
+                    self.probes.add("failed_deserialize_leaked_blocks", sut_blocks1 - sut_blocks0);
+                    self.tolerated_leak = true;
                 }
                 for t in 0..ledger::NTYPES as u8 {
                     if ledger::anon_live(t) != anon0[t as usize] {
@@ -1546,15 +1607,11 @@ impl Sim {
         match r {
             Err(v) if v.oracle == "unexpected-injected-panic" => {
                 self.balance_off = true;
+                // Every world the operation writes to (including a destination whose replacement
+                // was interrupted) has unknown content from now on.
                 for s in inner.touched_slots().into_iter().chain(inner.mirror_slot()) {
                     let si = self.s(s);
-                    if mutates_world(inner) {
-                        self.slots[si].tainted = true;
-                    }
-                }
-                if let Op::CloneFrom { dst, .. } = inner {
-                    let d = self.s(*dst);
-                    self.slots[d].tainted = true;
+                    self.slots[si].tainted = true;
                 }
                 self.probes.hit("panic_reached_caller");
                 Ok(())
@@ -1563,10 +1620,6 @@ impl Sim {
             Ok(()) => Err(viol("C17", "panic-swallowed", format!("an injected panic inside {} did not reach the caller", inner.name()))),
         }
     }
-}
-
-fn mutates_world(op: &Op) -> bool {
-    !matches!(op, Op::Clone { .. } | Op::RoundTrip { .. } | Op::Snapshot { .. } | Op::EqCheck { .. } | Op::DebugFmt { .. } | Op::Corrupt { .. })
 }
 
 fn fmt_rec(r: &CompRec) -> String {
